@@ -95,6 +95,28 @@ Fixpoint stream_ok (cmds dec : list command) : bool :=
   | CmdRaw _ :: r => stream_ok r dec
   end.
 
+(* longest prefix of well-formed items *)
+Fixpoint wf_prefix (hist : list hitem) : list hitem :=
+  match hist with
+  | h :: r => if item_wf h then h :: wf_prefix r else []
+  | [] => []
+  end.
+
+Definition text_chars (hist : list hitem) : list N :=
+  flat_map (fun h => match h with HText cs => cs | HSgr _ => [] end) hist.
+Definition sgr_bytes_ok (h : hitem) : bool :=
+  match h with HSgr p => forallb param_byte p | HText cs => forallb char_ok cs end.
+(* when every sequence is at least a CSI .. m over parameter bytes, no character may be lost, added or reordered *)
+Definition chars_ok (hist : list hitem) (cells : list (N * obs_face)) : bool :=
+  negb (forallb sgr_bytes_ok hist) || nlist_eqb (text_chars hist) (map fst cells).
+
+Fixpoint rcells_prefix_eqb (x : list rcell) (y : list (N * obs_face)) : bool :=
+  match x, y with
+  | [], _ => true
+  | a :: x', b :: y' => (fst a =? fst b) && rface_eqb (snd a) (obs_rface (snd b)) && rcells_prefix_eqb x' y'
+  | _ :: _, [] => false
+  end.
+
 Definition c06_check (c : c06_case) : bool * bool :=
   match c with
   | KEnc cmd gs cuts impl_bytes impl_dec impl_applied =>
@@ -134,14 +156,17 @@ Definition c06_check (c : c06_case) : bool * bool :=
            | None => false
            end
         && forallb (fun c => obs_consistent (snd c)) impl_cells in
-      (* decided here, not by a tag of the generator: a history with an inexpressible parameter
-         (known finding C06-inexpressible: 7 / 27 / 39 / 49) must show exactly the recorded
-         behaviour -- the reference machine with those four parameters as no-ops; every other
-         history the reference machine itself *)
+      (* the property predicate is the REFERENCE machine only (never the recorded defect):
+         - the characters of the cells are exactly the text of the history, in order (also after a
+           malformed sequence; a panic or a short write shows as a marker cell);
+         - on the longest prefix of the history whose SGR sequences are all well-formed, the faces
+           are those of the reference SGR machine.
+         A history with 7/27/39/49 fails this on the unchanged crate (known finding C06-inexpressible):
+         such a case is suppressed by its class tag only if the model -- proved equal to the recorded
+         machine, C06_semantics_recorded -- reproduces the implementation (`require_agree`). *)
       let holds :=
-        negb (hist_wf hist)
-        || rcells_eqb (if hist_expressible hist then ref_cells (abs_face f0) hist
-                       else ref_cells_lib (abs_face f0) hist) impl_cells in
+        chars_ok hist impl_cells
+        && rcells_prefix_eqb (ref_cells (abs_face f0) (wf_prefix hist)) impl_cells in
       (agree, holds)
   | KDec bytes cuts impl_dec impl_whole =>
       (ocmds_eqb (option_map fst (decode_chunks st_init (chunk_at cuts bytes))) impl_dec,
